@@ -196,6 +196,25 @@ CHECKS += [
              "folding are established by the correspondence and the implementation-level oracle on the property's whole (length, depth) range, "
              "not by a theorem; MSM buffer sizes only schedule a commutative sum and are not modelled."},
 ]
+CHECKS += [
+    {"property_id": "C19",
+     "text": "Coq theorems: the number of bytes the canonical format writes depends only on the shape of the value (vector lengths, option "
+             "tags), for every schema; for each scheme's commitment and opening proof the size is the closed form of Schemes/Sizes.v - constant "
+             "for KZG10/Marlin/Sonic/streaming, one group element per variable for PST13 and the multilinear PST, two per halving round for "
+             "IPA, 2^(n/2) row commitments and one row of scalars for Hyrax, three counters and a digest for the code-based commitments and "
+             "t Merkle paths + t columns + one or two rows for their proofs; compute_dimensions (integer ceil-sqrt model) with the exact "
+             "calculate_t: on the property's ladder (degrees 2..256 at rate 1/4, 2..12 variables at rate 1/2, with and without the "
+             "well-formedness row) the Ligero proof size at the chosen dimensions is within 4x of the best power-of-two row count (finite "
+             "domain, vm_compute, bounds in the statement). Correspondence: serialized_size and bytes written of every commitment and "
+             "single-point proof of the 8 trait schemes along the ladder, all bound/hiding settings, 1..3 polynomials, both compression "
+             "modes, against the closed forms evaluated by the extracted model from the scenario parameters alone (matrix dimensions, number "
+             "of openings, path depth included); implementation-level oracle: serialized_size = bytes written, the per-scheme law, and the 4x "
+             "allowance on the shipped field elements for Ligero and Brakedown.",
+     "note": COMMON_NOTE + " Brakedown's codeword length comes from the library's parameters (its expander dimensions are not modelled) and "
+             "its 4x bound is checked at run time by the oracle, not by a theorem; a Brakedown path whose sibling is a padding leaf is shorter, "
+             "so its proof size is compared within the band the model derives. Batch and combination proofs are vectors of these proofs "
+             "(C12 covers their encoding); streaming and multilinear-PST sizes are theorems only (no trait-level flow)."},
+]
 _PENDING = "check not built yet in this round (model and correspondence under construction; see DESIGN.md section 7)"
 _CLAIMED = {c["property_id"] for c in CHECKS}
 NOT_APPLICABLE = [{"property_id": "C%02d" % i, "reason": _PENDING} for i in range(1, 20) if "C%02d" % i not in _CLAIMED]
